@@ -849,6 +849,7 @@ func runC06(c *Ctx) {
 	checkHeaderReservesLengthPrefix(c, "R18")
 	checkMarshalledUnderTheGivenID(c, "R19")
 	checkExtendedFlagIffPairs(c, "R20")
+	checkStringsEncodedVerbatim(c, "R21")
 
 	// ---------- R8 count guards refuse only what cannot fit ----------
 	checkCountGuards(c, "R8")
